@@ -11,12 +11,14 @@ use prefix_trie::map::Entry;
 use prefix_trie::PrefixMap;
 
 /// two consecutive calls on one OccupiedEntry. `AFTER_REMOVE`: the first call is `remove()`.
-pub fn occ_seq<S: Src, const AFTER_REMOVE: bool, const N: usize>(s: &mut S) {
+/// `OP2`: 255 = any second call, otherwise the second call is fixed (0 get, 1 get_mut, 2 key,
+/// 3 remove, 4 insert) so that a panic is attributed to exactly one call pair.
+pub fn occ_seq<S: Src, const AFTER_REMOVE: bool, const OP2: u8, const N: usize>(s: &mut S) {
     let (nodes, r) = pre::<S, N>(s);
     let mut map = mk_map_simple(&nodes, &r);
     let p = any_p(s);
     let op1 = s.u8();
-    let op2 = s.u8();
+    let op2 = if OP2 == 255 { s.u8() } else { OP2 };
     s.assume(op1 < 4 && op2 < 5);
     s.assume((op1 == 3) == AFTER_REMOVE);
     let w = s.u8();
@@ -53,15 +55,14 @@ pub fn occ_seq<S: Src, const AFTER_REMOVE: bool, const N: usize>(s: &mut S) {
     let (post, _) = readback::<N>(&map);
     let pr = reach(&post);
     check!(s, map.len() == count(&post, &pr), "C04,C20:len() is consistent after a sequence of handle calls");
-    cover!(s, lookup(&nodes, &r, &p).is_some() && op2 == 0, "occupied entry, second call get()");
-    cover!(s, lookup(&nodes, &r, &p).is_some() && op2 == 3, "occupied entry, second call remove()");
+    cover!(s, lookup(&nodes, &r, &p).is_some(), "occupied entry");
     std::mem::forget(map);
 }
 
 /// value insertion through a mutable view followed by a map-level removal of that entry
 pub fn view_set_then_remove<S: Src, const N: usize>(s: &mut S) {
     let (nodes, r) = pre::<S, N>(s);
-    let mut map = mk_map_simple(&nodes, &r);
+    let mut map = mk_map::<N, 0>(&nodes, &Free::<0>::empty(), count(&nodes, &r), N, N);
     let i = s.idx(N);
     s.assume(r[i] && nodes[i].1.is_none());
     let w = s.u8();
@@ -84,7 +85,7 @@ pub fn view_set_then_remove<S: Src, const N: usize>(s: &mut S) {
 /// 2 and_modify.
 pub fn entry_callback<S: Src, const OP: u8, const N: usize>(s: &mut S) {
     let (nodes, r) = pre::<S, N>(s);
-    let mut map = mk_map_simple(&nodes, &r);
+    let mut map = mk_map::<N, 0>(&nodes, &Free::<0>::empty(), count(&nodes, &r), N + 2, 1);
     let p = any_p(s);
     let v = s.u8();
     let mp: *const PrefixMap<P, u8> = &map;
